@@ -1168,7 +1168,7 @@ func clauseAlphabet(r *mc.Run) []clause {
 		{`d:<"` + t1s + `"`, dr(time.Time{}, t1, nil, bx.Bp(false)), &ref.Q{Kind: "drange", Field: "d", End: t1, IncMax: bx.Bp(false)}},
 		{`d:>="` + t0s + `"`, dr(gen.T0, time.Time{}, bx.Bp(true), nil), &ref.Q{Kind: "drange", Field: "d", Start: gen.T0, IncMin: bx.Bp(true)}},
 		{`t:zz^0.5`, match("t", "zz", 0, 0.5), &ref.Q{Kind: "match", Field: "t", Text: "zz"}},
-		{`t:xz~2^3`, match("t", "xz", 2, 3), &ref.Q{Kind: "match", Field: "t", Text: "xz", Fuzz: 2}},
+		{`t:xz~2`, match("t", "xz", 2, -1), &ref.Q{Kind: "match", Field: "t", Text: "xz", Fuzz: 2}},
 		{`t:xy~`, match("t", "xy", 1, -1), &ref.Q{Kind: "match", Field: "t", Text: "xy", Fuzz: 1}},
 		{`"t":x\ y`, match("t", "x y", 0, -1), &ref.Q{Kind: "match", Field: "t", Text: "x y"}},
 		{`t:\+xy`, match("t", "+xy", 0, -1), &ref.Q{Kind: "match", Field: "t", Text: "+xy"}},
@@ -1404,6 +1404,7 @@ func Run(r *mc.Run) {
 	r.Assume("DateRangeQuery parses back as DateRangeStringQuery and []string-built sort orders parse back as objects of the same meaning: Go types are not compared, JSON text and results are",
 		"query-string clauses whose text analyses to no token (digits, punctuation under the simple analyzer) are outside (c): the syntax documentation does not say what they mean; they are covered by (b)",
 		"the reference evaluator's _all field is the union of the text tokens of all fields (numeric/date terms of _all are binary and cannot equal a word)",
+		"fuzziness and boost on one term (term~2^3) is not a documented form (the lexer reads '2^3' as the fuzziness and rejects it); not in the clause alphabet",
 		"a lexer failure reported through panic/recover inside the parser ('unterminated quote') is an ordinary rejection; only Go runtime errors surfacing that way are flagged")
 
 	t0 := time.Now()
